@@ -37,6 +37,10 @@ def c03(tier):
     if tier == 'quick':
         qs.append(mk('lr_w2_r1_r1_R3', 'c03_lr.cpp', [W, R1, R2], 3, final='vp_final', cover=3, defines=['NWRITES=2', 'NREADS=1'], timeout=900))
         qs.append(mk('lr_w2_r2_R3_try', 'c03_lr.cpp', [W, R1], 3, final='vp_final', cover=3, defines=['NWRITES=2', 'NREADS=2', 'READ_TRY'], timeout=900))
+        qs.append(mk('lr_w1_w1_r1_R3', 'c03_lr.cpp', [('W1', 'vp_writer'), ('W2', 'vp_writer'), R1], 3, final='vp_final', cover=3,
+                     defines=['NWRITES=1', 'NREADS=1'], timeout=900))
+        qs.append(mk('lr_w1_w1_r1_R3_o201', 'c03_lr.cpp', [('W1', 'vp_writer'), ('W2', 'vp_writer'), R1], 3, order=(2, 0, 1), final='vp_final', cover=3,
+                     defines=['NWRITES=1', 'NREADS=1'], timeout=900))
     else:
         for o in orders(3, 'all'):
             qs.append(mk('lr_w2_r1_r1_R4_o' + ''.join(map(str, o)), 'c03_lr.cpp', [W, R1, R2], 4, order=o, final='vp_final', cover=3,
@@ -123,8 +127,15 @@ def c11(tier):
                      setup='vp_setup_active', cover=7, opts=o, unwind=4, defines=['WITH_RESET']))
         qs.append(mk('tv_activation_R3', 'c11_trigger.cpp', [('Wa', 'vp_act_waiter'), ('Wf', 'vp_act_waiter_for'), ('A', 'vp_activator')], 3,
                      setup='vp_setup_inactive', cover=7, opts=o, unwind=4))
+        qs.append(mk('tv_activate_vs_trigger_R3', 'c11_trigger.cpp', [('A', 'vp_activator_once'), ('T', 'vp_trigger_retry'), ('W', 'vp_act_then_wait')], 3,
+                     setup='vp_setup_inactive', final='vp_final_triggered', cover=7, opts=o, unwind=4))
+        qs.append(mk('tv_activate_vs_trigger_R3_o120', 'c11_trigger.cpp', [('A', 'vp_activator_once'), ('T', 'vp_trigger_retry'), ('W', 'vp_act_then_wait')], 3,
+                     order=(1, 2, 0), setup='vp_setup_inactive', final='vp_final_triggered', cover=7, opts=o, unwind=4))
         qs.append(mk('tv_sequential', 'c11_trigger.cpp', [], 1, setup='vp_setup_inactive', seq=['vp_seq_inactive'], cover=1, unwind=4))
     else:
+        for od in orders(3, 'all'):
+            qs.append(mk('tv_activate_vs_trigger_R4_o' + ''.join(map(str, od)), 'c11_trigger.cpp', [('A', 'vp_activator_once'), ('T', 'vp_trigger_retry'), ('W', 'vp_act_then_wait')], 4,
+                         order=od, setup='vp_setup_inactive', final='vp_final_triggered', cover=7, opts={'spur': 2, 'yield_blocks': False}, unwind=5, timeout=2400))
         o2 = {'spur': 2, 'yield_blocks': False}
         for od in orders(3, 'all'):
             s_ = ''.join(map(str, od))
@@ -377,7 +388,10 @@ def c12(tier):
         qs.append(rq('rcu_reader_2writers_R2_o012', 'ABD', 2, order=(0, 1, 2), defines=d))
         qs.append(rq('rcu_reader_2writers_R2_o201', 'ABD', 2, order=(2, 0, 1), defines=d))
         qs.append(rq('rcu_2writers_R3', 'BD', 3, defines=d))
+        qs.append(rq('rcu_2erasers_same_R3', 'BD', 3, defines=['ERASE_POS=0', 'W2_ERASE_FIRST']))
     else:
+        qs.append(rq('rcu_2erasers_same_reader_R2', 'ABD', 2, order=(1, 2, 0), defines=['ERASE_POS=0', 'W2_ERASE_FIRST'], timeout=3000))
+        qs.append(rq('rcu_2erasers_same_R4', 'BD', 4, defines=['ERASE_POS=0', 'W2_ERASE_FIRST'], timeout=3000))
         qs.append(mk('rculist_seq_4ops', 'c12_rcuseq.cpp', [], 1, seq=['vp_seq'], cover=1, defines=['NOPS=4'], unwind=6, checks='pointer', timeout=3000))
         for o in orders(3, 'all'):
             qs.append(rq('rcu_reader_2writers_R2_o' + ''.join(map(str, o)), 'ABD', 2, order=o, defines=d, timeout=3000))
@@ -465,10 +479,17 @@ def c19(tier):
     # by the ABI guard anyway); everything else (shared_ptr copies, the trip store, the detector load) interleaves freely
     o = {'yield_blocks': False, 'noinline': ['@_ZN4gmlc11concurrency8TripWire14getIndexedLineEj', '@_ZN4gmlc11concurrency8TripWire7getLineEv']}
     if tier == 'quick':
-        for kn, k in kinds.items():
-            qs.append(mk(f'trip_{kn}_owner_det_R3', 'c19_tripwire.cpp', [O, D], 3, final='vp_final', cover=3, defines=[f'LINEKIND={k}'],
+        # the owner's way of handling its trigger (0 destroy, 1 move-construct, 2 move-assign, 3 moved-from dies first) is enumerated
+        for mv in range(4):
+            qs.append(mk(f'trip_explicit_mv{mv}_owner_det_R3', 'c19_tripwire.cpp', [O, D], 3, final='vp_final', cover=3, defines=['LINEKIND=1', f'MV={mv}'],
                          opts=o, unwind=4, checks='pointer', must_cover=4, timeout=900))
-        qs.append(mk('trip_explicit_owner_other_R3', 'c19_tripwire.cpp', [O, X], 3, final='vp_final', cover=3, defines=['LINEKIND=1'],
+        qs.append(mk('trip_declared_mv1_owner_det_R3', 'c19_tripwire.cpp', [O, D], 3, final='vp_final', cover=3, defines=['LINEKIND=2', 'MV=1'],
+                     opts=o, unwind=4, checks='pointer', must_cover=4, timeout=900))
+        qs.append(mk('trip_indexed_mv2_owner_det_R3', 'c19_tripwire.cpp', [O, D], 3, final='vp_final', cover=3, defines=['LINEKIND=3', 'MV=2'],
+                     opts=o, unwind=4, checks='pointer', must_cover=4, timeout=900))
+        qs.append(mk('trip_indexed_mv3_owner_other_R3', 'c19_tripwire.cpp', [O, X], 3, final='vp_final', cover=3, defines=['LINEKIND=3', 'MV=3'],
+                     opts=o, unwind=4, checks='pointer', timeout=900))
+        qs.append(mk('trip_explicit_mv2_owner_other_R3', 'c19_tripwire.cpp', [O, X], 3, final='vp_final', cover=3, defines=['LINEKIND=1', 'MV=2'],
                      opts=o, unwind=4, checks='pointer', timeout=900))
         qs.append(mk('trip_indexed_seq', 'c19_tripwire.cpp', [], 1, seq=['vp_seq'], cover=1, defines=['LINEKIND=3'], unwind=4, checks='pointer'))
     else:
